@@ -393,7 +393,8 @@ def consolidate : List (List Value) → List Rec → Option (List (List Value))
 
 /-- `Schema.NoRetractions` as the logical nodes compute it: the CSV/JSON sources say `true`; Filter, Map and the
     Requalifier pass it on; StreamJoin: both inputs; OuterJoin: both inputs and no outer side (after
-    `fix: outer join schema must not claim NoRetractions`); `logical.LookupJoin.Typecheck` leaves it unset. The
+    `fix: outer join schema must not claim NoRetractions`); LookupJoin: both inputs (after
+    `fix: lookup join schema reports NoRetractions when neither input retracts`). The
     optimizer's rules build their nodes with the schema of the node they replace, so the flag of the plan's root
     is the one computed here. -/
 def Plan.noRetr : Plan → Bool
@@ -402,7 +403,7 @@ def Plan.noRetr : Plan → Bool
   | .map _ s => s.noRetr
   | .streamJoin _ _ l r => l.noRetr && r.noRetr
   | .outerJoin isL isR _ _ l r => l.noRetr && r.noRetr && !isL && !isR
-  | .lookupJoin _ _ => false
+  | .lookupJoin s j => s.noRetr && j.noRetr
 
 /-- the three kinds of sink of `cmd/root.go` (for a query without ORDER BY / LIMIT) -/
 inductive SinkMode where
